@@ -109,6 +109,18 @@ Theorem C12_prune_safe_strict : forall b1 b2 p,
     inbox b1 p -> inbox b2 p -> False.
 Proof. exact prune_safe_strict. Qed.
 
+(* exact counting.  The number of crossings of a Line/Bezier pair in general
+   position is computed by Model/Isect.v crossing_count (Sturm / Tarski signed
+   remainder sequences over Q).  Its general correctness (Sturm's theorem) is NOT
+   proved here; each use in the C12 check is accompanied by a certificate
+   checked in exact arithmetic: as many disjoint parameter brackets with a sign
+   change of the crossing polynomial (and the range condition at both ends) as
+   the count says.  What such a bracket proves: *)
+Theorem C12_sign_change_root : forall p a b, (a < b)%R ->
+    (peval NumR p a * peval NumR p b < 0)%R ->
+    exists x, (a <= x <= b)%R /\ peval NumR p x = 0%R.
+Proof. exact sign_change_root. Qed.
+
 (* ---------------- witnesses computed in exact rationals ---------------- *)
 Definition q (n : Z) (d : positive) : Qc := qc n d.
 Definition zc (a b : Z) : Cplx Qc := (q a 1, q b 1).
@@ -188,6 +200,7 @@ Print Assumptions C12_path_collect_complete.
 Print Assumptions C12_path_once.
 Print Assumptions C12_prune_safe.
 Print Assumptions C12_prune_safe_strict.
+Print Assumptions C12_sign_change_root.
 Print Assumptions C12_dedup_as_coded_refuted.
 Print Assumptions C12_prune_zero_width_refuted.
 Print Assumptions C12_subdiv_skip_refuted.
